@@ -242,7 +242,7 @@ func (cc *ClientConfig) Initialize(tlsCertStore *tlscerts.Store, listenConfigCac
 		}
 
 	case "http":
-		if cc.HTTP.UseTLS && cc.HTTP.ServerName == "" {
+		if cc.HTTP.UseTLS && cc.HTTP.ServerName == "" && cc.TCPAddress.IsValid() {
 			cc.HTTP.ServerName = cc.TCPAddress.Host()
 		}
 
